@@ -1,0 +1,51 @@
+//go:build verif
+
+package rp
+
+// Comment-only file: contracts read by /verif's govc (see pkg/oidc/zz_verif_contracts.go).
+
+// ---- C01: ID token verification. Postconditions are written from the property statement
+// (OIDC Core 3.1.3.7), not from the code. old(wallclock) is the earliest, wallclock the latest
+// possible clock reading of the call; the 500ms terms are time.Round(time.Second).
+
+//@ func rp.VerifyIDToken
+//@   requires valid(v) && valid(v.KeySet) && v.Offset >= 0
+//@   ensures clock: old(wallclock) <= wallclock
+//@   ensures sound-valid: err == nil ==> valid(claims)
+//@   ensures sound-iss: err == nil ==> claims.GetIssuer() == v.Issuer
+//@   ensures sound-sub: err == nil ==> claims.GetSubject() != ""
+//@   ensures sound-aud: err == nil ==> contains(claims.GetAudience(), v.ClientID)
+//@   ensures sound-azp: err == nil ==> (len(claims.GetAudience()) > 1 ==> claims.GetAuthorizedParty() != "")
+//@                                  && (claims.GetAuthorizedParty() == "" || claims.GetAuthorizedParty() == v.ClientID)
+//@   ensures sound-sig: err == nil ==> sigChecked(token, jwtPayload(token), v.KeySet, v.SupportedSignAlgs)
+//@   ensures sound-exp: err == nil ==> old(wallclock) + v.Offset < claims.GetExpiration()
+//@   ensures sound-iat: err == nil ==> claims.GetIssuedAt() != ZEROTIME && claims.GetIssuedAt() <= wallclock + v.Offset + 500000000
+//@                                  && (v.MaxAgeIAT != 0 ==> claims.GetIssuedAt() >= old(wallclock) - v.MaxAgeIAT - 500000000)
+//@   ensures sound-nonce: err == nil && v.Nonce != nil ==> claims.GetNonce() == callres("dyn:v.Nonce", 0)
+//@   ensures sound-acr: err == nil && v.ACR != nil ==> callres("dyn:acr", 0) == nil
+//@   ensures sound-authtime: err == nil && v.MaxAge != 0 ==> claims.GetAuthTime() != ZEROTIME
+//@                                  && claims.GetAuthTime() >= old(wallclock) - v.MaxAge - 500000000
+//@   ensures zero-on-error: err != nil ==> iszero(claims)
+//@   ensures complete: callres("oidc.ParseToken", 1) == nil && valid(claims)
+//@         && claims.GetSubject() != "" && claims.GetIssuer() == v.Issuer && contains(claims.GetAudience(), v.ClientID)
+//@         && (len(claims.GetAudience()) > 1 ==> claims.GetAuthorizedParty() != "")
+//@         && (claims.GetAuthorizedParty() == "" || claims.GetAuthorizedParty() == v.ClientID)
+//@         && callres("oidc.CheckSignature", 0) == nil
+//@         && wallclock + v.Offset < claims.GetExpiration()
+//@         && claims.GetIssuedAt() != ZEROTIME && claims.GetIssuedAt() <= old(wallclock) + v.Offset - 500000000
+//@         && (v.MaxAgeIAT == 0 || claims.GetIssuedAt() >= wallclock - v.MaxAgeIAT + 500000000)
+//@         && (v.Nonce == nil || claims.GetNonce() == callres("dyn:v.Nonce", 0))
+//@         && (v.ACR == nil || callres("dyn:acr", 0) == nil)
+//@         && (v.MaxAge == 0 || (claims.GetAuthTime() != ZEROTIME && claims.GetAuthTime() >= wallclock - v.MaxAge + 500000000))
+//@         ==> err == nil
+
+//@ func rp.VerifyAccessToken
+//@   modifies nothing
+//@   ensures iff: err == nil <==> atHash == "" || (hashBitsOf(str(sigAlgorithm)) != 0 && atHash == hashString(hashBitsOf(str(sigAlgorithm)), accessToken, true))
+
+//@ func rp.VerifyTokens
+//@   requires valid(v) && valid(v.KeySet) && v.Offset >= 0
+//@   ensures idtoken: err == nil ==> callres("rp.VerifyIDToken", 1) == nil && claims == callres("rp.VerifyIDToken", 0)
+//@   ensures at-hash: err == nil ==> claims.GetAccessTokenHash() == ""
+//@        || claims.GetAccessTokenHash() == hashString(hashBitsOf(str(claims.GetSignatureAlgorithm())), accessToken, true)
+//@   ensures zero-on-error: err != nil ==> iszero(claims)
